@@ -5,6 +5,7 @@ pub mod c03;
 pub mod c04;
 pub mod c05;
 pub mod c06;
+pub mod c07;
 pub mod c08;
 pub mod c09;
 pub mod c10;
@@ -16,6 +17,7 @@ pub mod c15;
 pub mod c16;
 pub mod c17;
 pub mod c18;
+pub mod c19;
 pub mod c20;
 
 pub fn lookup(id: &str) -> Option<&'static dyn Prop> {
@@ -26,6 +28,7 @@ pub fn lookup(id: &str) -> Option<&'static dyn Prop> {
         "C04" => Some(&c04::C04),
         "C05" => Some(&c05::C05),
         "C06" => Some(&c06::C06),
+        "C07" => Some(&c07::C07),
         "C08" => Some(&c08::C08),
         "C09" => Some(&c09::C09),
         "C10" => Some(&c10::C10),
@@ -37,6 +40,7 @@ pub fn lookup(id: &str) -> Option<&'static dyn Prop> {
         "C16" => Some(&c16::C16),
         "C17" => Some(&c17::C17),
         "C18" => Some(&c18::C18),
+        "C19" => Some(&c19::C19),
         "C20" => Some(&c20::C20),
         _ => None,
     }
